@@ -48,6 +48,10 @@ func vfGenC05Path(t *rapid.T, label string) string {
 	return strings.Join(parts, "/")
 }
 
+// operations whose path argument may be given in a decorated spelling (absolute paths only)
+var vfC05DecoOps = map[string]bool{"Mkdir": true, "MkdirAll": true, "Create": true, "OpenFile": true, "RemoveDirectory": true, "ReadLink": true, "Stat": true, "Lstat": true,
+	"Chmod": true, "Chtimes": true, "Truncate": true, "ReadDir": true, "Rename": true, "PosixRename": true, "Link": true}
+
 var vfC05OpKinds = []string{"Mknode", "Mkdir", "Mkdir", "MkdirAll", "Create", "Create", "OpenFile", "Remove", "RemoveDirectory", "RemoveAll", "Rename", "PosixRename", "Link", "Symlink", "Symlink",
 	"ReadLink", "Stat", "Lstat", "Chmod", "Chtimes", "Chown", "Truncate", "ReadDir", "Glob", "Walk", "RealPath", "StatVFS"}
 
@@ -58,6 +62,12 @@ func vfGenC05(t *rapid.T) vfCaseC05 {
 		op := vfC05Op{Op: rapid.SampledFrom(vfC05OpKinds).Draw(t, "op")}
 		op.P = vfGenC05Path(t, "p")
 		op.Abs = rapid.IntRange(0, 2).Draw(t, "abs") == 0
+		if op.Abs && vfC05DecoOps[op.Op] && rapid.IntRange(0, 2).Draw(t, "decorate") == 0 {
+			// An absolute path reaches the os call of the server verbatim (only relative ones are joined
+			// lexically to the working directory), so "P/.", "zz/../P", "./P", "P/" and "P//" must meet the
+			// kernel's answer there too - and Client.MkdirAll documents that it handles "foo/." (seed C05-h).
+			op.Deco = rapid.IntRange(1, 5).Draw(t, "deco")
+		}
 		switch op.Op {
 		case "Rename", "PosixRename", "Link":
 			op.P2 = vfGenC05Path(t, "p2")
@@ -172,7 +182,7 @@ func vfRunC05(ctx *vfCtx, c vfCaseC05) {
 			var gotErr, wantErr error
 			var got, want string
 			ctx.Class("op=" + op.Op)
-			if op.Deco != 0 && op.Op != "Glob" && op.Op != "Walk" && op.Op != "RealPath" && op.Op != "MkdirAll" && op.Op != "RemoveAll" {
+			if op.Deco != 0 && op.Abs && vfC05DecoOps[op.Op] {
 				// the same decorated string goes to sftp (below the served root) and to package os (below the twin root)
 				op.P = deco(op.P, op.Deco)
 				ctx.Class("decorated-path")
